@@ -190,6 +190,45 @@ def discharge_all(obs: list, second_opinion: bool = False) -> None:
                 ob.ms = (time.time() - t0) * 1000
     for ob in obs:
         discharge(ob, second_opinion=second_opinion)
+    retry_unknown(obs)
+
+
+def retry_unknown(obs: list, timeout_ms: int = 20000, limit: int = 6) -> None:
+    """Verdicts must not flip because the machine is busy: an obligation left `unknown` by a timeout is tried again, proof
+    only, conjunct by conjunct in a fresh context with a much longer budget. Only `unsat` changes anything."""
+    n = 0
+    for ob in obs:
+        if ob.status != "unknown" or ob.kind == "cover" or n >= limit:
+            continue
+        if not any(w in (ob.detail or "") for w in ("timeout", "canceled", "budget", "unknown", "incomplete")) and ob.detail:
+            continue
+        n += 1
+        t0 = time.time()
+        try:
+            ctx2 = z3.Context()
+            pc2 = [(z3.BoolVal(False, ctx2) if c is False else c.translate(ctx2)) for c in ob.pc if c is not True]
+            ok = True
+            for part in split_goal(ob.goal):
+                proved = False
+                for mbqi in (False, True):
+                    sp = z3.Solver(ctx=ctx2)
+                    sp.set("timeout", timeout_ms)
+                    sp.set("smt.mbqi", mbqi)
+                    sp.add(*pc2)
+                    sp.add(z3.Not(part.translate(ctx2)))
+                    if sp.check() == z3.unsat:
+                        proved = True
+                        break
+                if not proved:
+                    ok = False
+                    break
+            if ok:
+                ob.status = "proved"
+                ob.backend = "z3-5.1.0 (retry with long budget)"
+                ob.detail = f"first attempt: {ob.detail}"
+        except z3.Z3Exception:
+            pass
+        ob.ms += (time.time() - t0) * 1000
 
 
 _BUDGET = {"expensive_left": 6}
